@@ -1422,6 +1422,97 @@ def judgeC08 (ops : List OpRec) : List String :=
   -- resuming after a crash / restart is C07's statement evaluated on the coordinator's store at that moment
   s.out ++ judgeC07 ops
 
+/-! ### C17 -/
+
+structure J17 where
+  cluster : Cluster := {}
+  base : Int := 32768
+  lim : Int := 0
+  nparts : Nat := 0
+  /-- per partition: the size last asked and what came of it: none = data arrived / nothing due; some sz = an empty
+      answer although the high watermark showed data, asked with size sz -/
+  pendingGrow : List ((Bytes × Int) × Int) := []
+  /-- partitions due for a fetch of their own, oldest first -/
+  queue : List (Bytes × Int) := []
+  /-- consecutive polls in which a stuck partition neither delivered nor was reported -/
+  stuckPolls : Nat := 0
+  out : List String := []
+
+def judgeC17 (ops : List OpRec) : List String :=
+  let v (s : J17) (sig : String) (op : OpRec) (d : String) : J17 :=
+    { s with out := s.out ++ [s!"{sig} | op {op.idx} `{" ".intercalate (op.toks.take 1)}`: {d}"] }
+  let s := ops.foldl (fun (s : J17) op =>
+    let s := { s with cluster := applySetup s.cluster op.setup }
+    let (c', bodies) := truthBodies s.cluster op
+    let s := match op.toks with
+    | "consumer_create" :: _ :: opts =>
+      let base := ((lastOpt opts "maxbytes").bind (·.toInt?)).getD 32768
+      let lim := ((lastOpt opts "retrylimit").bind (·.toInt?)).getD 0
+      let topics : List Bytes := opts.filterMap fun o => let (k, x) := kv o; if k == "topic" then fromHex x else none
+      let n := (topics.map fun (t : Bytes) => ((s.cluster.topic? t).map (fun (ts : TopicState) => ts.parts.length)).getD 0).foldl (· + ·) 0
+      { s with base := base, lim := lim, nparts := n, pendingGrow := [], stuckPolls := 0 }
+    | ["poll"] =>
+      let asked : List (Bytes × Int × Int × Nat) := (framesOf op).flatMap fun (x : Bytes × Request) => match x.2.body with
+        | ReqBody.fetch _ _ _ ts =>
+          let cnt := (ts.map fun (tp : Bytes × List FetchPart) => tp.2.length).foldl (· + ·) 0
+          ts.flatMap fun (tp : Bytes × List FetchPart) => tp.2.map fun (fp : FetchPart) => (tp.1, fp.partition, fp.maxBytes, cnt)
+        | _ => []
+      let totalAsked := asked.length
+      -- 1. sizes: never above max(base, limit); after an empty-but-behind answer: doubled up to the limit, and alone
+      let s := asked.foldl (fun (s : J17) (x : Bytes × Int × Int × Nat) =>
+        let t := x.1; let p := x.2.1; let sz := x.2.2.1
+        let s := if sz ≤ max s.base s.lim then s else v s "C17-size-above-limit" op s!"{toHexTok t}/{p} asked with max_bytes {sz}; normal size {s.base}, retry limit {s.lim}"
+        match s.pendingGrow.find? (fun (y : (Bytes × Int) × Int) => y.1 == (t, p)) with
+        | some (_, prev) =>
+          let want := if prev < s.lim then (if prev + prev > s.lim then s.lim else prev + prev) else prev
+          if sz == want then s else v s "C17-size-sequence" op s!"{toHexTok t}/{p}: after an empty answer at size {prev} the next request asks {sz}, expected {want} (limit {s.lim})"
+        | none => if sz == s.base then s else v s "C17-size-not-reset" op s!"{toHexTok t}/{p} asked with {sz} although nothing is pending; normal size {s.base}"
+        ) s
+      -- 1b. a partition queued for a retry is fetched alone, oldest first
+      let s := match s.queue with
+        | q :: rest =>
+          let s := if asked.map (fun (x : Bytes × Int × Int × Nat) => (x.1, x.2.1)) == [q] then s
+            else v s "C17-not-alone" op s!"{toHexTok q.1}/{q.2} was due for a fetch of its own; this poll asked for {asked.map fun (x : Bytes × Int × Int × Nat) => (toHexTok x.1, x.2.1)}"
+          { s with queue := rest }
+        | [] => s
+      -- 2. outcome per partition from the broker's answers
+      let answers : List ((Bytes × Int) × (Bool × Bool)) := bodies.flatMap fun (x : Bytes × Request × RespBody) =>
+        let reqOff (t : Bytes) (p : Int) : Int := match x.2.1.body with
+          | ReqBody.fetch _ _ _ ts => ((ts.find? (fun (y : Bytes × List FetchPart) => y.1 == t)).bind fun (y : Bytes × List FetchPart) =>
+              (y.2.find? (fun (fp : FetchPart) => fp.partition == p)).map (fun (fp : FetchPart) => fp.offset)).getD 0
+          | _ => 0
+        match x.2.2 with
+        | RespBody.fetch ts => ts.flatMap fun (tp : Bytes × List FetchPartResp) => tp.2.map fun (pr : FetchPartResp) =>
+            let got := !(exposed leanDec 4 pr.set (reqOff tp.1 pr.partition)).isEmpty
+            ((tp.1, pr.partition), (got, reqOff tp.1 pr.partition < pr.hw))
+        | _ => []
+      let failed := op.result.startsWith "err"
+      -- 3. a single-partition fetch that is at (or beyond) the limit and still empty must be reported
+      let s := answers.foldl (fun (s : J17) (a : (Bytes × Int) × (Bool × Bool)) =>
+        let sz := ((asked.find? (fun (x : Bytes × Int × Int × Nat) => (x.1, x.2.1) == a.1)).map (fun (x : Bytes × Int × Int × Nat) => x.2.2.1)).getD s.base
+        if !a.2.1 && a.2.2 && totalAsked == 1 && !(sz < s.lim) then
+          (if op.result == "err Kafka(10)" then s else v s "C17-not-reported" op s!"{toHexTok a.1.1}/{a.1.2}: fetched alone at size {sz} (limit {s.lim}), nothing fits, result `{op.result}`")
+        else s) s
+      -- 4. update pending growth
+      let pg := if failed then s.pendingGrow else
+        answers.foldl (fun (pg : List ((Bytes × Int) × Int)) (a : (Bytes × Int) × (Bool × Bool)) =>
+          let sz := ((asked.find? (fun (x : Bytes × Int × Int × Nat) => (x.1, x.2.1) == a.1)).map (fun (x : Bytes × Int × Int × Nat) => x.2.2.1)).getD s.base
+          let pg := pg.filter fun (y : (Bytes × Int) × Int) => y.1 != a.1
+          if !a.2.1 && a.2.2 then pg ++ [(a.1, sz)] else pg) s.pendingGrow
+      -- 5. never stall: with something pending, polls must deliver, grow or report within a bound
+      let progressed := failed || answers.any (fun (a : (Bytes × Int) × (Bool × Bool)) => a.2.1) || pg != s.pendingGrow
+      let stuck := if !pg.isEmpty && !progressed then s.stuckPolls + 1 else 0
+      let s := if stuck > s.nparts + 3 then v s "C17-stalled" op s!"{stuck} polls in a row neither delivered, grew a size nor reported, with {pg.length} partition(s) behind their high watermark" else s
+      -- a successful poll of a multi-partition consumer queues every empty-but-behind partition for a fetch of its own
+      let queue := if failed || s.nparts ≤ 1 then s.queue else
+        s.queue ++ (answers.filter fun (a : (Bytes × Int) × (Bool × Bool)) => !a.2.1 && a.2.2).map (fun (a : (Bytes × Int) × (Bool × Bool)) => a.1)
+      { s with pendingGrow := pg, stuckPolls := stuck, queue := queue }
+    | _ => s
+    { s with cluster := c' }) ({} : J17)
+  -- other partitions keep being delivered without loss: C01's demands (an entry that cannot fit is reported by every
+  -- other poll, so "an empty poll at the end" does not mean "drained" here)
+  s.out ++ (judgeC01 ops).filter fun (l : String) => (l.splitOn "C01-undelivered").length == 1
+
 def judge (prop : String) (lines : List String) : List String :=
   let ops := parseOps lines
   match prop with
@@ -1441,6 +1532,7 @@ def judge (prop : String) (lines : List String) : List String :=
   | "C04" => judgeC04 ops
   | "C01" => judgeC01 ops
   | "C08" => judgeC08 ops
+  | "C17" => judgeC17 ops
   | _ => []
 
 end Kafka.Judge
